@@ -101,6 +101,17 @@ def get_pyro_traceback(ex_type=None, ex_value=None, ex_tb=None):
         del ex_type, ex_value, ex_tb
 
 
+def safe_str(obj) -> str:
+    """str(obj), also for objects (exceptions raised by user code) whose __str__ or __repr__ is broken"""
+    try:
+        return str(obj)
+    except Exception:
+        try:
+            return repr(obj)
+        except Exception:
+            return "<unprintable %s object>" % type(obj).__name__
+
+
 def format_traceback(ex_type=None, ex_value=None, ex_tb=None, detailed=False):
     """Formats an exception traceback. If you ask for detailed formatting,
     the result will contain info on the variables in each stack frame.
